@@ -48,7 +48,8 @@ ASSUMPTIONS = {"C16": [
 ]}
 EXPECTED_PROBES = {"C16": ["probe:context_switch", "probe:ident_reused", "probe:hyper_branch", "probe:optimal_branch",
                            "kind:preset:auto", "kind:auto-nocache", "kind:auto-cache", "kind:reusable-hyper", "kind:reusable-rgreedy",
-                           "sampler:pct", "sampler:walk", "probe:same_size_pair_queried", "probe:switch_inside_reusable_search"]}
+                           "sampler:pct", "sampler:walk", "probe:same_size_pair_queried", "probe:switch_inside_reusable_search", "probe:twin_queried",
+                           "probe:contract_through_interface_caches"]}
 
 
 def violation_class(v):
@@ -117,6 +118,24 @@ def gen_case(prop, seed, tier):
             if s:
                 break
         pool.append({"inputs": i, "output": o, "size_dict": s})
+    # near-twins of pool members: same tensors with the output in another order, or every index renamed
+    # (a reusable optimizer fingerprints these alike or almost alike; the answer must still be the query's own)
+    for _ in range(sw.choice([0, 1, 1, 2])):
+        src = pool[sw.randrange(len(pool))]
+        if len(src["output"]) >= 2 and sw.random() < 0.6:
+            o = list(src["output"])
+            for _k in range(6):
+                sw.shuffle(o)
+                if o != list(src["output"]):
+                    break
+            pool.append({"inputs": [list(t) for t in src["inputs"]], "output": o, "size_dict": dict(src["size_dict"]), "twin": "output-permuted"})
+        else:
+            names = sorted(src["size_dict"])
+            perm = names[:]
+            sw.shuffle(perm)
+            m = dict(zip(names, perm))
+            pool.append({"inputs": [[m[ix] for ix in t] for t in src["inputs"]], "output": [m[ix] for ix in src["output"]],
+                         "size_dict": {m[k]: v for k, v in src["size_dict"].items()}, "twin": "renamed"})
     hs = sorted(_hardness(q["inputs"]) for q in pool)
     cutoff = (hs[len(hs) // 2 - 1] + hs[len(hs) // 2]) / 2 + 0.01
     nthreads = sw.choice([1, 2, 2, 3, 3])
@@ -286,6 +305,8 @@ def run_case(prop, case):
         nq += 1
         q = pool[qi]
         sizes_asked[len(q["inputs"])] += 1
+        if q.get("twin"):
+            counters["probe:twin_queried"] += 1
         if _hardness(q["inputs"]) < (cfg["optimal_cutoff"] if not kind.startswith("preset") else (250 if kind == "preset:auto" else 650)):
             counters["probe:optimal_branch"] += 1
         else:
